@@ -12,6 +12,7 @@ INVARIANT WellFormedOK
 INVARIANT ReadersAgree
 INVARIANT RoundTripOK
 INVARIANT MachineAgrees
+INVARIANT InnerMarshalAgrees
 PROPERTY RefusedIsNoop
 PROPERTY BufferAppendOnly
 CHECK_DEADLOCK FALSE
